@@ -4,6 +4,7 @@ pub mod c03;
 pub mod c04;
 pub mod c05;
 pub mod c08;
+pub mod c09;
 pub mod c11;
 pub mod c13;
 pub mod replay;
@@ -18,6 +19,7 @@ pub fn dispatch(ctx: &Ctx) -> Option<Coverage> {
         "C04" => c04::run(ctx),
         "C05" => c05::run(ctx),
         "C08" => c08::run(ctx),
+        "C09" => c09::run(ctx),
         "C10" => c02::run_c10(ctx),
         "C11" => c11::run_c11(ctx),
         "C13" => c13::run(ctx),
